@@ -65,7 +65,11 @@ func (w *World) canon(v ssa.Value, d int) string {
 	case *ssa.FreeVar:
 		// resolve through the enclosing MakeClosure when unique
 		if b := w.freeVarBinding(x); b != nil {
-			return w.canon(b, d+1)
+			// values of the enclosing function: its receiver stays "recv" (closures have
+			// none of their own), its parameters are marked so they cannot be confused
+			// with the closure's own parameters
+			s := w.canon(b, d+1)
+			return markOuter(s)
 		}
 		return "^" + x.Name()
 	case *ssa.Const:
@@ -473,4 +477,31 @@ func negateCond(c string) string {
 		return "true"
 	}
 	return "!" + c
+}
+
+// markOuter prefixes the parameter names (p0, p1, …) in a canonical expression
+// of the enclosing function with "^".
+func markOuter(s string) string {
+	var out strings.Builder
+	for i := 0; i < len(s); i++ {
+		c := s[i]
+		if c == 'p' && i+1 < len(s) && s[i+1] >= '0' && s[i+1] <= '9' {
+			prevOK := i == 0 || !(isIdentChar(s[i-1]) || s[i-1] == '^')
+			if prevOK {
+				j := i + 1
+				for j < len(s) && s[j] >= '0' && s[j] <= '9' {
+					j++
+				}
+				if j == len(s) || !isIdentChar(s[j]) {
+					out.WriteByte('^')
+				}
+			}
+		}
+		out.WriteByte(c)
+	}
+	return out.String()
+}
+
+func isIdentChar(c byte) bool {
+	return c == '_' || c >= 'a' && c <= 'z' || c >= 'A' && c <= 'Z' || c >= '0' && c <= '9' || c == '.'
 }
